@@ -218,6 +218,9 @@ def finish_spec_to_impl(job, verdict, stats):
     res = finish_rig(job["walk"], "walk " + job["name"])
     rs = finish_rig(job["seqs"], "seqs " + job["name"]) if job["seqs"] else None
     ex = res["extra"]
+    if rs:
+        # first: the literal sequences give the shortest scripts for the replay files
+        classify(rs, cfg, "seqs", verdict)
     classify(res, cfg, "walk", verdict)
     if "visited_states" not in ex:
         return
@@ -248,7 +251,6 @@ def finish_spec_to_impl(job, verdict, stats):
                                  "observed_bodies": d["observed"]["db"]["bodies"],
                                  "intended_bodies": (d.get("intended") or {}).get("db", {}).get("bodies")})
     if rs:
-        classify(rs, cfg, "seqs", verdict)
         stats["behaviours"] += rs["behaviours"]
         stats["sequences"] += rs["extra"]["sequences"]
         stats["steps"] += rs["steps"]
